@@ -63,6 +63,14 @@ def main():
     sys.stderr.write("PROBE-ERR %s %s\n" % (json.dumps(name), json.dumps(err_text)))
     sys.stderr.flush()
     if sig is not None:
+        # the signal must really end the process: an inherited SIG_IGN (e.g. SIGHUP under nohup) or a blocked
+        # signal would let the probe fall through to a normal exit and the check would blame JADE for the 0
+        import signal as _signal
+        try:
+            _signal.signal(sig, _signal.SIG_DFL)
+            _signal.pthread_sigmask(_signal.SIG_UNBLOCK, {sig})
+        except (ValueError, OSError, AttributeError):
+            pass
         os.kill(os.getpid(), sig)
     os._exit(code & 0xFF)
 
